@@ -21,6 +21,8 @@ class CallCtx:
     def __init__(self, ex, args: dict, entry: State, st: State = None, result=None, exc=None):
         self.ex, self.args, self.entry, self.st = ex, args, entry, st
         self.result, self.exc = result, exc
+        self.at_call_site = False      # True when the contract is being applied at a call (clauses about the callee's
+                                       # internal ghost state are meaningful only while the callee itself is verified)
 
     def arg(self, name):
         return self.args[name]
@@ -43,6 +45,11 @@ class CallCtx:
     @property
     def yielded(self):
         return self.st.yielded
+
+
+def _site(ctx):
+    ctx.at_call_site = True
+    return ctx
 
 
 class CallMixin:
@@ -262,7 +269,7 @@ class CallMixin:
                                 st.pc, pre, loc=self.loc(node))
                     st.assume(pre)
         entry = st.fork()
-        ctx = CallCtx(self, amap, entry, st)
+        ctx = _site(CallCtx(self, amap, entry, st))
         if c.requires is not None:
             self.add_vc("call-pre", f"{c.target.split('::')[-1]}@{self.call_ordinal(node, c.target.split('::')[-1])}", st.pc,
                         self._b(c.requires(ctx)), loc=self.loc(node))
@@ -287,11 +294,11 @@ class CallMixin:
                 if h is not None:
                     h(self, st, v)
         if c.frame is not None:
-            c.frame(self, st, CallCtx(self, amap, entry, st))
+            c.frame(self, st, _site(CallCtx(self, amap, entry, st)))
         # exceptional outcomes
         for r in c.raises:
             s2 = st.fork()
-            cx = CallCtx(self, amap, entry, s2)
+            cx = _site(CallCtx(self, amap, entry, s2))
             cond = self._b(r.when(cx)) if r.when is not None else z3.BoolVal(True)
             if self.feasible(s2.pc, cond):
                 s2.assume(cond)
@@ -303,7 +310,7 @@ class CallMixin:
                     self.raise_in(s2, self.mk_exc(r.cls))
         if c.may_raise_any:
             self.exc_any(st.fork(), f"{self.loc(node)} {c.target}")
-        ctx = CallCtx(self, amap, entry, st)
+        ctx = _site(CallCtx(self, amap, entry, st))
         for p, fn in c.final.items():
             v = amap[p]
             st.wobj(v.ref).data = list(fn(ctx))
@@ -323,7 +330,7 @@ class CallMixin:
                 if not self.feasible(s2.pc, cond):
                     continue
                 s2.assume(cond)
-            cx = CallCtx(self, amap, entry, s2, result=rv)
+            cx = _site(CallCtx(self, amap, entry, s2, result=rv))
             ok = True
             for (_label, e) in c.ensures:
                 s2.assume(self._b(e(cx)))
